@@ -344,9 +344,9 @@ def _site_index(repo):
 
 def summaries(repo):
     """qual -> {formal: 'data'|'meta'} mutated, at fixpoint."""
-    key = ("effects", id(repo))
-    if key in _cache:
-        return _cache[key]
+    got = getattr(repo, "_effects_cache", None)
+    if got is not None:
+        return got
     idx = _site_index(repo)
     summ = {f.qual: {} for f in repo.all_funcs()}
     ret_alias = {f.qual: set() for f in repo.all_funcs()}
@@ -373,8 +373,8 @@ def summaries(repo):
                 changed = True
         if not changed:
             break
-    _cache[key] = (summ, details)
-    return _cache[key]
+    repo._effects_cache = (summ, details)
+    return repo._effects_cache
 
 
 _cache = {}
